@@ -159,8 +159,21 @@ impl E1Oracle for C03Oracle {
         let _ = dijkstra::all_pairs(g, w, None, None, false, true);
         let _ = betweenness::betweenness_centrality(g, w, false);
         let _ = closeness::closeness_centrality(g, w, false);
-        for n in g.get_all_node_names().into_iter().cloned().collect::<Vec<N>>() {
+        let names: Vec<N> = g.get_all_node_names().into_iter().cloned().collect();
+        for &n in &names {
             let _ = dijkstra::single_source(g, w, n, None, None, false, false);
+        }
+        // searches that stop early come LAST, so that whatever they leave behind (on the graph or on the thread)
+        // is still there when the judged calls run - a complete search in between could tidy it up
+        for &n in &names {
+            let _ = dijkstra::single_source(g, w, n, None, Some(1.0), false, true);
+        }
+        for (i, &n) in names.iter().enumerate() {
+            let t = names[(i + 1) % names.len()];
+            let _ = dijkstra::single_source(g, w, n, Some(t), None, true, true);
+        }
+        if names.len() >= 2 {
+            let _ = dijkstra::single_source(g, w, names[0], Some(names[1]), None, false, true);
         }
     }
     fn fingerprint(&mut self, g: &G, alphabet: &Alphabet) -> u64 {
@@ -174,7 +187,27 @@ impl E1Oracle for C03Oracle {
         }
         h
     }
-    fn transition(&mut self, t: &Trans, _rec: &Recorder, c: &mut Counters) {
+    fn transition(&mut self, t: &Trans, rec: &Recorder, c: &mut Counters) {
+        // judged IMMEDIATELY after the mutation: the warm-up ended with searches that stopped early, and any complete
+        // search in between (the fingerprint's, from every source) could tidy up what they left behind
+        if self.weighted && !t.op.is_batch() {
+            let b = Base::of(t.g_after);
+            if let Some((name, _)) = b.nodes.first() {
+                let exp = bellman_ford(&b, 0);
+                if let Ok(Ok(m)) = guarded(|| dijkstra::single_source(t.g_after, true, *name, None, None, false, false)) {
+                    let got: Vec<Option<f64>> = b.nodes.iter().map(|(x, _)| m.get(x).map(|y| y.distance)).collect();
+                    if got != exp {
+                        let mut hist: Vec<u16> = t.hist.to_vec();
+                        hist.push(t.op_idx);
+                        let ops: Vec<String> = ops_of(t.alphabet, &hist).iter().map(|o| o.short()).collect();
+                        rec.record(
+                            Violation::new("dijkstra_vs_store", "dijkstra::single_source", case_id(t.spec_idx, t.alphabet.name, &hist, "after_early_stop"), format!("specs: {}\nhistory: {} (the graph before the last step was queried with searches that stop early: cutoff, target, first_only)\nstored edges: {:?}\nsource {name} right after the last step: distances {got:?}, Bellman-Ford over get_all_edges() gives {exp:?}", spec_str(t.specs), ops.join(" ; "), b.edges.iter().map(|e| (e.0, e.1, wstr(e.2))).collect::<Vec<_>>()))
+                                .with_snippet(history_snippet("replay", t.specs, &ops_of(t.alphabet, &hist), "    // query with target / cutoff before the last step, then single_source from the first node\n")),
+                        );
+                    }
+                }
+            }
+        }
         if let Op::AddEdge(e) = t.op {
             if *t.real_res != ResKind::Ok {
                 return;
@@ -300,7 +333,7 @@ pub fn run(tier: &str, rec: &Recorder) -> RunOutput {
     let start = Instant::now();
     let mut out = RunOutput::new("model_checking");
     let cap = wall_cap_s(tier);
-    let stages: Vec<(&'static str, usize, bool)> = if tier == "quick" { vec![("w2", 5, true), ("w3s", 3, true), ("nan2", 5, false), ("w2b", 3, true)] } else { vec![("w2", 6, true), ("w3", 4, true), ("w3s", 5, true), ("nan3", 5, false), ("w2b", 4, true), ("nan2b", 4, false)] };
+    let stages: Vec<(&'static str, usize, bool)> = if tier == "quick" { vec![("w2", 5, true), ("w3s", 3, true), ("nan2", 5, false), ("w2b", 3, true), ("w3", 3, true)] } else { vec![("w2", 6, true), ("w3", 4, true), ("w3s", 5, true), ("nan3", 5, false), ("w2b", 4, true), ("nan2b", 4, false)] };
     let n_st = stages.len() as f64;
     let mut notes = vec![];
     let mut ex = true;
@@ -351,6 +384,29 @@ pub fn replay(case: &str, rec: &Recorder) -> bool {
     let specs = spec_from_index(pc.spec_idx);
     let ops = ops_of(&pc.alphabet, &pc.hist);
     let weighted = !pc.alphabet.name.starts_with("nan");
+    if pc.extra == "after_early_stop" && !pc.hist.is_empty() {
+        // query (warm-up, ending with searches that stop early) -> last step -> judged search, on a fresh thread
+        let (pre, last) = pc.hist.split_at(pc.hist.len() - 1);
+        let ops_pre = ops_of(&pc.alphabet, pre);
+        let op = pc.alphabet.ops[last[0] as usize].clone();
+        for _ in 0..2 {
+            let _ = on_fresh_thread_scoped(0, || {
+                let mut o = C03Oracle { weighted };
+                let (g0, _) = build_real(&specs, &ops_pre);
+                let before = snap(&g0);
+                let ref_before = replay_ref(&specs, &ops_pre);
+                let (mut g, _) = build_real(&specs, &ops_pre);
+                o.warmup(&g, &pc.alphabet);
+                let real_res = op.apply_real(&mut g);
+                let after = snap(&g);
+                let mut ref_after = ref_before.clone();
+                let ref_res = op.apply_ref(&mut ref_after);
+                let mut c = Counters::default();
+                o.transition(&Trans { spec_idx: pc.spec_idx, specs: &specs, alphabet: &pc.alphabet, hist: pre, op_idx: last[0], op: &op, before: &before, after: &after, g_after: &g, real_res: &real_res, ref_before: &ref_before, ref_after: &ref_after, ref_res: &ref_res }, rec, &mut c);
+            });
+        }
+        return rec.has_any();
+    }
     for round in 0..2 {
         let (g, _) = build_real(&specs, &ops);
         let r = replay_ref(&specs, &ops);
